@@ -338,3 +338,19 @@ _quick("C13", "C13_streambuf", "a 64-byte StreamReaderBuffer filled with 1..64 n
 _quick("C03", "C18_reconnect2", "(also under C18) replies to requests a closed connection left queued, across two reconnects under the same client id: each is delivered exactly once to the connection that then speaks for the id", ["-witness", "4"], reach=["end", "third", "dropped"])
 
 _quick("C09", "C09_sendfiles", "leader side of a full transfer: 4 persisted records over two log files (rotation after 2), the announced position any of (1,1)..(2,3) including positions behind the last record of a file; the real ReplicationServer.sendFiles writes to a capturing connection: exactly the records before the announced position, in log order, then the end marker", ["-witness", "6"])
+
+# small harnesses: every explored path is replayed natively ("-witness n" attaches a model to every n-th ok path)
+_ALL_PATHS = {"C12_logorder", "C16_values", "C16_staletmp", "C07_shared", "C18_anon", "C10_demote", "C18_adminwills",
+              "C07_percent", "C11_shared", "C12_remote_newer", "C09_resync", "C03_textexpire", "C17_relock_long",
+              "C01_slowmap", "C09_cut", "C07_relock", "C07_ms", "C03_textpush", "C18_willwindow", "C05_unlockwait",
+              "C06_waitgrant", "C07_valexpired", "C09_sendfiles", "C15_textnum", "C18_reconnect2", "C08_bufcut",
+              "C16_second", "C18_reinit", "C03_cancel", "C17_recycle"}
+for _c in CHECKS.values():
+    for _h in _c["harnesses"]:
+        if _h["name"] in _ALL_PATHS and _h.get("native", True):
+            _fl = [x for x in _h.get("flags", [])]
+            if "-witness" in _fl:
+                _fl[_fl.index("-witness") + 1] = "1"
+            else:
+                _fl += ["-witness", "1"]
+            _h["flags"] = _fl
